@@ -117,6 +117,21 @@ fn cid_idx(g: &mut GenCtx) -> usize {
 }
 
 fn call_block(g: &mut GenCtx, idx: usize, out: &mut Vec<Instruction>) {
+    // a LIVE stack frame around the call ($sp > $ssp): locals with distinct words are stored before the CALL and read
+    // back after the return (a mismatch reverts with the differing word), or registers are pushed / popped around it
+    let live = if g.knobs.call_heavy { g.rng.below(4) } else { g.rng.below(12) };
+    let words = *g.rng.pick(&[1u32, 2, 3, 5, 8, 17, 64]);
+    let vals: Vec<u32> = (0..words.min(4)).map(|w| 0x2_A000 + ((g.rng.next() as u32) & 0xff0) + w).collect();
+    let mask = ((g.rng.next() & 0xfff) as u32 | 1) << 4;
+    match live {
+        0 | 1 => {
+            out.push(op::move_(R_T5, RegId::SP));
+            out.push(op::cfei(words * 8));
+            for (w, v) in vals.iter().enumerate() { out.push(op::movi(R_T6, *v)); out.push(op::sw(R_T5, R_T6, w as u16)); }
+        }
+        2 => out.push(op::pshl(mask)),
+        _ => {}
+    }
     out.push(op::addi(R_T1, R_BASE, OFF_CALLS + 48 * idx as u16));
     let asset = g.rng.below(2) as u16;
     out.push(op::addi(R_T2, R_BASE, OFF_ASSETS + 32 * asset));
@@ -128,6 +143,21 @@ fn call_block(g: &mut GenCtx, idx: usize, out: &mut Vec<Instruction>) {
         let gas = *g.rng.pick(&[0u32, 1, 50, 500, 5_000, 50_000, 262_143]);
         out.push(op::movi(R_T4, gas));
         out.push(op::call(R_T1, R_T3, R_T2, R_T4));
+    }
+    match live {
+        0 | 1 => {
+            for (w, v) in vals.iter().enumerate() {
+                out.push(op::lw(R_T7, R_T5, w as u16));
+                out.push(op::movi(R_T6, *v));
+                out.push(op::xor(R_T7, R_T7, R_T6));
+                out.push(op::jnzf(R_T7, RegId::ZERO, 1));
+                out.push(op::jmpf(RegId::ZERO, 1));
+                out.push(op::rvrt(R_T7));
+            }
+            if live == 0 { out.push(op::cfsi(words * 8)); }
+        }
+        2 => out.push(op::popl(mask)),
+        _ => {}
     }
 }
 
